@@ -1,2 +1,42 @@
-(* C03 — statements (under construction) *)
-From MPD Require Import Bytes Tables ParserModel BuilderModel ConnModel ParserProofs ConnProofs.
+(* C03 — well-formed server output is decoded exactly.  Statements only.
+   Proved so far (the rest is the correspondence/oracle run; see the manifest's level_note):
+   what follows a complete response is neither consumed nor able to change it; payloads are cut by
+   length and never scanned. *)
+From MPD Require Import Bytes Tables ParserModel BuilderModel ConnModel ParserProofs ConnProofs GrammarProofs.
+Open Scope N_scope.
+
+(* a response completed on a prefix of the stream is THE response, and the bytes after it are left
+   untouched for the next receive — whatever those bytes are *)
+Theorem c03_rest_not_consumed : forall buf st x st' rest r,
+  bparse_all st buf = (st', rest, Complete r) ->
+  bparse_all st (buf ++ x) = (st', rest ++ x, Complete r).
+Proof.
+  intros buf st x st' rest r B.
+  pose proof (bparse_app (length buf) buf st x (le_n _)) as A. unfold app_verdict in A.
+  rewrite B in A. exact A.
+Qed.
+
+(* decoding is incremental: feeding a prefix and then the remainder equals feeding everything *)
+Theorem c03_incremental : forall buf st x st' rest,
+  bparse_all st buf = (st', rest, NeedMore) ->
+  bparse_all st (buf ++ x) = bparse_all st' (rest ++ x).
+Proof.
+  intros buf st x st' rest B.
+  pose proof (bparse_app (length buf) buf st x (le_n _)) as A. unfold app_verdict in A.
+  rewrite B in A. exact A.
+Qed.
+
+(* non-vacuity and the look-alike values of the property, by computation on the model *)
+Example c03_ex :
+  let s := b "a: OK" ++ [LF] ++ b "b: list_OK" ++ [LF] ++ b "c: ACK [5@0] {} x" ++ [LF] ++ b "d: binary: 3" ++ [LF] ++
+           b "e: " ++ [LF] ++ b "binary: 10" ++ [LF] ++ b "OK" ++ [LF] ++ b "ACK" ++ [LF; 0; 255; LF] ++ [LF] ++
+           b "list_OK" ++ [LF] ++ b "ACK [50@1] {play} No such song" ++ [LF] ++ b "next: 1" in
+  ref_receive s TEof =
+    (Resp (mkResp [mkFrame [(b "a", b "OK"); (b "b", b "list_OK"); (b "c", b "ACK [5@0] {} x"); (b "d", b "binary: 3"); (b "e", [])]
+                           (Some (b "OK" ++ [LF] ++ b "ACK" ++ [LF; 0; 255; LF]))]
+                  (Some (mkErr 50 1 (Some (b "play")) (b "No such song")))),
+     b "next: 1").
+Proof. vm_compute. reflexivity. Qed.
+
+Print Assumptions c03_rest_not_consumed.
+Print Assumptions c03_incremental.
